@@ -1,0 +1,69 @@
+//go:build verif
+
+package ethereum
+
+import (
+	"crypto/ecdsa"
+	"math/big"
+
+	"github.com/ethereum/go-ethereum/accounts/keystore"
+
+	"github.com/keep-network/keep-core/pkg/chain"
+	"github.com/keep-network/keep-core/pkg/protocol/group"
+)
+
+// Verification hook (build tag verif): re-exports existing identifiers only.
+
+// VerifNewTbtcChain builds a TbtcChain handle that has only the fields the
+// pure (off-chain) methods read: the chain ID and the operator key.
+func VerifNewTbtcChain(chainID *big.Int, operatorKey *ecdsa.PrivateKey) *TbtcChain {
+	return &TbtcChain{
+		baseChain: &baseChain{
+			key:     &keystore.Key{PrivateKey: operatorKey},
+			chainID: chainID,
+		},
+	}
+}
+
+func VerifComputeOperatorsIDsHash(ids chain.OperatorIDs) ([32]byte, error) {
+	return computeOperatorsIDsHash(ids)
+}
+
+func VerifConvertSignaturesToChainFormat(
+	signatures map[group.MemberIndex][]byte,
+) ([]group.MemberIndex, []byte, error) {
+	return convertSignaturesToChainFormat(signatures)
+}
+
+func VerifConvertPubKeyToChainFormat(publicKey *ecdsa.PublicKey) ([64]byte, error) {
+	return convertPubKeyToChainFormat(publicKey)
+}
+
+func VerifCalculateDKGResultSignatureHash(
+	chainID *big.Int,
+	groupPublicKey []byte,
+	misbehavedMembersIndexes []group.MemberIndex,
+	startBlock *big.Int,
+) ([32]byte, error) {
+	h, err := calculateDKGResultSignatureHash(
+		chainID, groupPublicKey, misbehavedMembersIndexes, startBlock,
+	)
+	return h, err
+}
+
+func VerifCalculateInactivityClaimHash(
+	chainID *big.Int,
+	nonce *big.Int,
+	walletPublicKey []byte,
+	inactiveMembersIndexes []*big.Int,
+	heartbeatFailed bool,
+) ([32]byte, error) {
+	h, err := calculateInactivityClaimHash(
+		chainID, nonce, walletPublicKey, inactiveMembersIndexes, heartbeatFailed,
+	)
+	return h, err
+}
+
+func VerifCalculateWalletID(walletPublicKey *ecdsa.PublicKey) ([32]byte, error) {
+	return calculateWalletID(walletPublicKey)
+}
